@@ -31,17 +31,20 @@ Step ==
                 r == R!DoRegister(reg, e.o, i, e.force, e.weak) IN
             /\ reg' = (IF e.id = "gen" /\ r.out # "ok" THEN reg ELSE r.reg)
             /\ held' = held
-            /\ bad' = IF e.out # r.out THEN
+            /\ bad' = IF ~e.daemon_kept THEN Flag("C16.DaemonObjectGoneOrReplaced")
+                      ELSE IF e.out # r.out THEN
                          (IF r.out = "ok" THEN Flag("C16.RegistrationRefused")
                           ELSE IF e.out = "ok" THEN Flag("C16.SecondRegistrationNotRefused") ELSE Flag("C16.RegisterWrongError"))
                       ELSE bad
        [] e.a = "unregister_id" ->
             /\ reg' = (IF e.id = "daemon" THEN reg ELSE R!DoUnregisterId(reg, e.id))
             /\ held' = held
-            /\ bad' = IF e.out # "ok" THEN Flag("C16.UnregisterFailed") ELSE bad
+            /\ bad' = IF ~e.daemon_kept THEN Flag("C16.DaemonObjectGoneOrReplaced")
+                      ELSE IF e.out # "ok" THEN Flag("C16.UnregisterFailed") ELSE bad
        [] e.a = "unregister_obj" ->
             /\ reg' = R!DoUnregisterObj(reg, e.o) /\ held' = held
-            /\ bad' = IF R!Registered(reg, e.o) /\ e.out # "ok" THEN Flag("C16.UnregisterFailed")
+            /\ bad' = IF ~e.daemon_kept THEN Flag("C16.DaemonObjectGoneOrReplaced")
+                      ELSE IF R!Registered(reg, e.o) /\ e.out # "ok" THEN Flag("C16.UnregisterFailed")
                       ELSE IF e.out \notin {"ok", "DaemonError"} THEN Flag("C16.UnregisterWrongError") ELSE bad
        [] e.a = "gc" -> reg' = R!DoGc(reg, e.o) /\ held' = held \ {e.o} /\ bad' = bad
        [] e.a = "call" ->
